@@ -118,6 +118,8 @@ class Report:
                 print("  key=%s count=%d" % (key, v["count"]))
                 for ln in str(v["witness"]).split("\n")[:12]:
                     print("  | " + ln)
+        if not self.samples:
+            self.inconclusive.append("the run recorded no sample case (evidence would be empty)")
         missed = [(k, c, r) for k, (c, r) in self.reach.items() if c < r]
         wall = time.time() - self.t0
         cov = dict(evaluations=int(self.evaluations), distinct_nontrivial=len(self.distinct) + self.distinct_extra,
